@@ -13,8 +13,8 @@ Init ==
        /\ n \in 0..MaxN /\ m \in 0..MaxN /\ k \in 0..(MaxN * 2)
        /\ (op \in {"pop_back", "pop_front", "remove", "into_array", "from_array", "asref_array", "into_tuple", "from_tuple",
                    "append_ann", "prepend_ann", "pop_ann", "map_ann", "from_slice_infer",
-                   "from_chunks", "from_chunks_mut", "into_chunks", "into_chunks_mut"} => m = 0)
-       /\ (op \in {"zip", "eq", "lt", "pop_back", "pop_front", "remove"} => k = 0)
+                   "from_chunks", "from_chunks_mut", "into_chunks", "into_chunks_mut", "const_len", "const_len_into"} => m = 0)
+       /\ (op \in {"zip", "eq", "lt", "pop_back", "pop_front", "remove", "inverted_zip", "inverted_zip2", "inverted_zip2_ref"} => k = 0)
        /\ (op = "split" => m = 0)
        /\ (op \in {"into_tuple", "from_tuple"} => n >= 1 /\ k >= 1)
        /\ (op = "unflatten_ann" => m >= 1 /\ n % m = 0)        \* the quotient type must exist to name the row
